@@ -1,0 +1,40 @@
+//go:build verif
+
+package client
+
+import (
+	"time"
+
+	"github.com/arm-doe/sts"
+)
+
+// Exports for the verification harness in /verif (build tag "verif" only).
+
+type verifNamed struct{ name string }
+
+func (f verifNamed) GetPath() string    { return f.name }
+func (f verifNamed) GetName() string    { return f.name }
+func (f verifNamed) GetSize() int64     { return 0 }
+func (f verifNamed) GetTime() time.Time { return time.Time{} }
+func (f verifNamed) GetMeta() []byte    { return nil }
+
+var _ sts.File = verifNamed{}
+
+// VerifConfFileTag builds the broker's tag map exactly as Start does and returns the
+// result of the real getTag for a file of the given name, with its index in Conf.Tags.
+func VerifConfFileTag(conf *Conf, name string) (idx int, tag *FileTag) {
+	broker := &Broker{Conf: conf}
+	broker.tagMap = make(map[string]*FileTag)
+	for _, tag := range broker.Conf.Tags {
+		broker.tagMap[tag.Name] = tag
+	}
+	tag = broker.getTag(verifNamed{name})
+	idx = -1
+	for i, t := range conf.Tags {
+		if t == tag {
+			idx = i
+			break
+		}
+	}
+	return
+}
